@@ -29,8 +29,9 @@ def amapSet (m : List (String × Y)) (k : String) (v : Y) : List (String × Y) :
   | [] => [(k, v)]
   | (k', v') :: rest => if k' == k then (k', v) :: rest else (k', v') :: amapSet rest k v
 
-/-- Go `error` in translated gconfig code: `nil` is `none`; an error value is identified by the
-text of the call that built it (its message arguments are not modelled) -/
-abbrev Err := Option String
+/-- Go `error` in translated gconfig code: `nil` is `none`, any error value is `some ()` - WHICH
+error it is (type, message, arguments) is not modelled; the translated fragment only ever tests
+`err != nil` / `err == nil` and hands errors on -/
+abbrev Err := Option Unit
 
 end GoAny
